@@ -251,6 +251,17 @@ CLAIMED = {
              "the program is not initialised by EBPF.__init__ (only the program class's own dict is searched) - the maps are declared in the program class.",
         technique="Coq proof over declaration lists + layout comparison + values passed both ways between real descriptors and the real generated program",
         ref="7/C08"),
+    "C10": dict(
+        text="Theorem C10_buffers_suffice: for EVERY operation of the Python map API (hash variable get / set, per-CPU read, Dict set / get / pop / del / "
+             "iteration), EVERY declared map (any structure sizes, any per-CPU variable set) and EVERY number of possible CPUs, the key and value buffers the "
+             "library passes are at least as large as what the kernel accesses through them (key_size, value_size, round_up(value_size, 8) * possible CPUs); "
+             "C10_online_cpus_refuted documents a repaired defect. Tie: the real API (load, hash variables, per-CPU read and indexing, Dict operations) runs "
+             "against a stand-in for the bpf() system call that knows the length of every Python buffer whose address it receives and checks it BEFORE "
+             "touching memory; per call the four sizes must equal the model's, and no overrun may be recorded (machine simulated with fewer online than possible CPUs).",
+        note=TB + "Partial: the sizes the kernel accesses are those of harness/sim_bpf.py (transcribed from the kernel's map syscalls), not observed from a "
+             "real kernel; obj_pin / obj_get / prog_test_run buffers are not covered.",
+        technique="Coq proof over all API operations and map declarations + interposition of the bpf() system call with a buffer-length registry",
+        ref="7/C10"),
 }
 
 REASONS_NOT_YET = "no check built yet in this round (planned, see DESIGN.md section 7); nothing is claimed for it"
